@@ -326,7 +326,7 @@ impl Atom {
                 arc_atom_table().expect("We should only have an Atom while there is an AtomTable");
 
             #[cfg(feature = "verif-hooks")]
-            crate::machine::verif::sched::point(crate::machine::verif::sched::point::AS_PTR);
+            crate::machine::verif::sched::reader_point();
             AtomTableRef::try_map(atom_table.inner.read(), |buf| unsafe {
                 let ptr = buf
                     .block
